@@ -19,6 +19,8 @@ def run(run, model):
     run.do(rec.call_args, model)
     run.do(rec.dispatch_closed, model, "C06.star-args")
     run.do(rec.truth_protocol, model, "C06.truth-protocol")
+    run.do(rec.none_is_a_value, model, "C06.none-is-a-value")
+    run.do(rec.placeholder_not_a_value, model)
     run.do(msg.args_listed, model, "C06.args-listed")
     run.do(msg.a_repr_rule, model, "C06.a-repr")
     from . import fwd
@@ -32,3 +34,4 @@ def run(run, model):
     run.minimum("C06.lookup", 4)
     run.minimum("C06.call-args", 1)
     run.minimum("C06.all-trace", 2)
+    run.minimum("C06.placeholder-not-shown", 1)
